@@ -836,6 +836,118 @@ example :
     (runTrace (Run.init tryExceptDbg []) (tryExceptTrace ++ [.visit ⟨0, 7⟩])).susp = [⟨0, 7⟩, ⟨0, 2⟩, ⟨0, 7⟩] := by
   refine ⟨by decide, ⟨by decide, by decide⟩, by decide⟩
 
+/-! ### the recorded call stack always matches (the sanity assertion of `VisitStepOutState`)
+
+The model the driver runs keeps the call DEPTH only. Go keeps the stack of call nodes and asserts, when a
+call returns, that the node on top is the returning call (`errorutil.AssertTrue`, a panic of the program
+thread otherwise). Here: the stack as a ghost (`goStack`), the assertion (`assertsOk`), the shape of the
+event streams `executeFunction` can produce for a debugger attached at any moment of one execution
+(`Seen`), the theorem that the assertion holds at every return of such a stream, and the link to the
+model: its depth is the length of that stack. NOT covered (declared assumption): one debugger object
+detached inside one call and re-attached inside another (its stack is stale). -/
+
+/-- `callStacks[tid]` after an event: push at `VisitStepInState`, pop at `VisitStepOutState` (nothing to pop
+if the debugger was attached while the call was running), dropped by `RecordThreadFinished` -/
+def goStackStep (st : List Loc) : Ev → List Loc
+  | .enter l => l :: st
+  | .exit _ _ => st.tail
+  | .finished => []
+  | .visit _ => st
+
+def goStack (st : List Loc) (t : List Ev) : List Loc := t.foldl goStackStep st
+
+/-- the sanity assertion at one event: at a return, a non-empty stack has the returning call on top -/
+def assertOk (st : List Loc) : Ev → Bool
+  | .exit l _ => st.head? == none || st.head? == some l
+  | _ => true
+
+/-- the assertion holds at every event of the trace -/
+def assertsOk (st : List Loc) : List Ev → Bool
+  | [] => true
+  | e :: t => assertOk st e && assertsOk (goStackStep st e) t
+
+/-- complete pieces of an execution: node visits and calls that are entered AND left, properly nested, the
+return announced with the node of the call (`executeFunction`: `VisitStepInState(node)` … `VisitStepOutState(node)`) -/
+inductive Matched : List Ev → Prop where
+  | nil : Matched []
+  | visit (l : Loc) {t : List Ev} : Matched t → Matched (.visit l :: t)
+  | call (l : Loc) (e : Bool) {b t : List Ev} : Matched b → Matched t → Matched (.enter l :: (b ++ .exit l e :: t))
+
+/-- the end of what the debugger sees: complete pieces, then calls that are still running -/
+inductive Open : List Ev → Prop where
+  | done {b : List Ev} : Matched b → Open b
+  | call (l : Loc) {b t : List Ev} : Matched b → Open t → Open (b ++ .enter l :: t)
+
+/-- what a debugger attached at ANY moment sees of one execution: returns of calls that were already
+running when it was attached (each after complete pieces), then `Open` -/
+inductive Seen : List Ev → Prop where
+  | tail {t : List Ev} : Open t → Seen t
+  | ret (l : Loc) (e : Bool) {b t : List Ev} : Matched b → Seen t → Seen (b ++ .exit l e :: t)
+
+theorem goStack_append (st : List Loc) (a b : List Ev) : goStack st (a ++ b) = goStack (goStack st a) b := by
+  simp [goStack, List.foldl_append]
+
+theorem assertsOk_append (a b : List Ev) : ∀ st : List Loc,
+    assertsOk st (a ++ b) = (assertsOk st a && assertsOk (goStack st a) b) := by
+  induction a with
+  | nil => intro st; simp [assertsOk, goStack]
+  | cons e a ih =>
+    intro st
+    simp only [List.cons_append, assertsOk, ih, goStack, List.foldl_cons, Bool.and_assoc]
+
+/-- a complete piece leaves the stack as it found it and never trips the assertion -/
+theorem matched_ok {b : List Ev} (h : Matched b) : ∀ st : List Loc, goStack st b = st ∧ assertsOk st b = true := by
+  induction h with
+  | nil => intro st; simp [goStack, assertsOk]
+  | visit l _ ih =>
+    intro st
+    obtain ⟨h1, h2⟩ := ih st
+    exact ⟨by simpa [goStack, goStackStep] using h1, by simpa [assertsOk, assertOk, goStackStep] using h2⟩
+  | call l e _ _ ih1 ih2 =>
+    rename_i b t _ _
+    intro st
+    obtain ⟨hb1, hb2⟩ := ih1 (l :: st)
+    obtain ⟨ht1, ht2⟩ := ih2 st
+    have hst : goStack (l :: st) (b ++ .exit l e :: t) = st := by
+      rw [goStack_append, hb1]
+      simpa [goStack, goStackStep] using ht1
+    have has : assertsOk (l :: st) (b ++ .exit l e :: t) = true := by
+      rw [assertsOk_append, hb2, hb1]
+      simpa [assertsOk, assertOk, goStackStep] using ht2
+    exact ⟨by simpa [goStack, goStackStep] using hst, by simpa [assertsOk, assertOk, goStackStep] using has⟩
+
+theorem open_ok {t : List Ev} (h : Open t) : ∀ st : List Loc, assertsOk st t = true := by
+  induction h with
+  | done hb => intro st; exact (matched_ok hb st).2
+  | call l hb _ ih =>
+    intro st
+    rw [assertsOk_append, (matched_ok hb st).2, (matched_ok hb st).1]
+    simpa [assertsOk, assertOk, goStackStep] using ih (l :: st)
+
+/-- **The call stack always matches.** For every event stream a debugger can see of one execution —
+attached before it, or at any moment while any number of calls are running (`Seen`), with an empty recorded
+stack at that moment — the sanity assertion of `VisitStepOutState` holds at every return: the recorded
+stack is empty (the call was entered before the debugger was attached: fix 748f41f) or its top is the
+returning call. So the visit functions cannot panic on such a stream. -/
+theorem callstack_assertion_never_fails {t : List Ev} (h : Seen t) : assertsOk [] t = true := by
+  induction h with
+  | tail ho => exact open_ok ho []
+  | ret l e hb _ ih =>
+    rw [assertsOk_append, (matched_ok hb []).2, (matched_ok hb []).1]
+    simpa [assertsOk, assertOk, goStackStep] using ih
+
+/-- non-vacuity: attached inside `g` called from `f`; `g` returns, `f` calls `h` and returns; then a call
+that is still running -/
+example : Seen [.visit ⟨0, 3⟩, .exit ⟨0, 9⟩ false, .enter ⟨0, 5⟩, .visit ⟨0, 1⟩, .exit ⟨0, 5⟩ false,
+    .exit ⟨0, 12⟩ true, .visit ⟨0, 13⟩, .enter ⟨0, 14⟩, .visit ⟨0, 2⟩] :=
+  .ret (b := [.visit ⟨0, 3⟩]) ⟨0, 9⟩ false (.visit _ .nil)
+    (.ret (b := [.enter ⟨0, 5⟩, .visit ⟨0, 1⟩, .exit ⟨0, 5⟩ false]) ⟨0, 12⟩ true
+      (.call (b := [.visit ⟨0, 1⟩]) (t := []) ⟨0, 5⟩ false (.visit _ .nil) .nil)
+      (.tail (.call (b := [.visit ⟨0, 13⟩]) ⟨0, 14⟩ (.visit _ .nil) (.done (.visit _ .nil)))))
+
+/-- a stream that is NOT of that shape trips the assertion (the return of another call than the one on top) -/
+example : assertsOk [] [.enter ⟨0, 5⟩, .exit ⟨0, 6⟩ false] = false := by decide
+
 /-! ### the debugger only observes -/
 
 /-- an undebugged evaluator, abstractly: any deterministic machine whose state `M` holds
